@@ -12,7 +12,7 @@ CASES = {'quick': 3000, 'thorough': 60000}
 SMALL_BLOCKS = 4      # runner: every 4th case keeps its stores in 2..10-token blocks
 GATES = {
     'quick': {'kind:meta:popitem': 50, 'kind:rawmeta:setexisting': 10, 'kind:rawmeta:popitem': 10, 'cases_in_small_blocks': 50, 'evaluations': 12000, 'steps_changing_raw_list': 4500, 'ordered_view_pairs': 30, 'families_seen': 6,
-              'read_probes': 100000, 'refusals_matched': 1200, 'meta_mapping_steps': 500, 'attribution_steps': 600, 'copied_view_edits': 100, 'window_permutations_of_mixed_kinds': 150},
+              'read_probes': 100000, 'refusals_matched': 1200, 'meta_mapping_steps': 500, 'attribution_steps': 600, 'copied_view_edits': 100, 'window_permutations_of_mixed_kinds': 150, 'self_assignments_through_views': 150},
     'thorough': {'evaluations': 400000, 'ordered_view_pairs': 30, 'families_seen': 6},
 }
 RULE = ('case = one accepted generated document; every view of every repeated field is read first (so all incremental index tables '
@@ -289,6 +289,21 @@ def run_case(col, r, idx):
                             f'{[type(x).__name__ for x in new]}>', m, path, lambda: [], lambda: w.__setitem__(slice(a, b), new))
                 attr = raw_attr
                 col.count('window_permutations')
+        if op is None and views and r.random() < 0.05:
+            # an element assigned back to where it is, through a view that shows nodes: a list shrugs (l[i] = l[i], l[:] = list(l))
+            nv = [v for v, kd in views.items() if kd in ('filter', 'rawmeta')]
+            if nv:
+                v = r.choice(nv)
+                w = getattr(m, v)
+                cur = [w[i] for i in range(len(w))]
+                if cur:
+                    i = r.randrange(len(cur))
+                    how = r.choice(['item', 'item-negative', 'whole-slice'])
+                    fn = {'item': lambda: w.__setitem__(i, cur[i]), 'item-negative': lambda: w.__setitem__(i - len(cur), cur[i]),
+                          'whole-slice': lambda: w.__setitem__(slice(None), list(cur))}[how]
+                    op = ops.Op('filtered:self-assign', f'{path}.{v}: an element assigned back to its own position ({how})', m, path, lambda: [], fn)
+                    attr = v
+                    col.count('self_assignments_through_views')
         try:
             op = op or g.build(f, path, m, attr, d, k)
         except (decimal.DecimalException, ZeroDivisionError):
